@@ -43,6 +43,7 @@ def main():
         for p in props:
             env = dict(os.environ)
             env.setdefault("VERIF_SEED", "1")
+            env["MVH_EVIDENCE_DIR"] = os.path.join(VERIF, "build", "seeded-evidence")
             rr = subprocess.run([sys.executable, os.path.join(VERIF, "verif.py"), "check", p, "--tier", tier],
                                 stdout=subprocess.PIPE, stderr=subprocess.STDOUT, text=True, cwd=VERIF, env=env)
             viol = [l for l in rr.stdout.splitlines() if l.startswith("VIOLATION")]
